@@ -24,7 +24,7 @@ TAGS = {
     "hist8k":     dict(mk=["D=IGZIP_HIST_SIZE=8*1024"], hc="", d=["IGZIP_HIST_SIZE=8*1024"]),
     "longer":     dict(mk=["D=LONGER_HUFFTABLE"], hc="", d=["LONGER_HUFFTABLE"]),
     "large":      dict(mk=["D=GF_LARGE_TABLES"], hc="", d=["GF_LARGE_TABLES"]),
-    "so":         dict(mk=[], hc="", d=[], shared=True),
+    "so":         dict(mk=[], hc="", d=["CPUSIM_DLSYM"], shared=True),
 }
 
 
